@@ -107,12 +107,7 @@ func (session *ServerCommandSession) FeedSdp(b []byte) {
 //
 // 使用RTSP TCP命令连接，向对端发送RTP数据
 func (session *ServerCommandSession) WriteInterleavedPacket(packet []byte, channel int) error {
-	if session.isWebSocket {
-		respLen := len(packInterleaved(channel, packet))
-		session.writeWsFrameHeader(respLen)
-	}
-	_, err := session.conn.Write(packInterleaved(channel, packet))
-	return err
+	return session.write(packInterleaved(channel, packet))
 }
 
 func (session *ServerCommandSession) RemoteAddr() string {
@@ -255,12 +250,7 @@ Loop:
 func (session *ServerCommandSession) handleOptions(requestCtx nazahttp.HttpReqMsgCtx) error {
 	Log.Infof("[%s] < R OPTIONS", session.uniqueKey)
 	resp := PackResponseOptions(requestCtx.Headers.Get(HeaderCSeq))
-	if session.isWebSocket {
-		respLen := len([]byte(resp))
-		session.writeWsFrameHeader(respLen)
-	}
-	_, err := session.conn.Write([]byte(resp))
-	return err
+	return session.write([]byte(resp))
 }
 
 func (session *ServerCommandSession) handleAnnounce(requestCtx nazahttp.HttpReqMsgCtx) error {
@@ -302,12 +292,7 @@ func (session *ServerCommandSession) handleDescribe(requestCtx nazahttp.HttpReqM
 		}
 
 		if authresp != "" {
-			if session.isWebSocket {
-				respLen := len([]byte(authresp))
-				session.writeWsFrameHeader(respLen)
-			}
-			_, err := session.conn.Write([]byte(authresp))
-			return err
+			return session.write([]byte(authresp))
 		}
 	}
 
@@ -338,12 +323,7 @@ func (session *ServerCommandSession) feedSdp(rawSdp []byte) error {
 	session.subSession.InitWithSdp(sdpCtx)
 
 	resp := PackResponseDescribe(session.describeSeq, string(rawSdp))
-	if session.isWebSocket {
-		respLen := len([]byte(resp))
-		session.writeWsFrameHeader(respLen)
-	}
-	_, err := session.conn.Write([]byte(resp))
-	return err
+	return session.write([]byte(resp))
 }
 
 func (session *ServerCommandSession) handleAuthorized(requestCtx nazahttp.HttpReqMsgCtx) (string, error) {
@@ -412,12 +392,7 @@ func (session *ServerCommandSession) handleSetup(requestCtx nazahttp.HttpReqMsgC
 		}
 
 		resp := PackResponseSetup(requestCtx.Headers.Get(HeaderCSeq), htv)
-		if session.isWebSocket {
-			respLen := len([]byte(resp))
-			session.writeWsFrameHeader(respLen)
-		}
-		_, err = session.conn.Write([]byte(resp))
-		return err
+		return session.write([]byte(resp))
 	}
 
 	rRtpPort, rRtcpPort, err := parseClientPort(requestCtx.Headers.Get(HeaderTransport))
@@ -451,12 +426,7 @@ func (session *ServerCommandSession) handleSetup(requestCtx nazahttp.HttpReqMsgC
 	}
 
 	resp := PackResponseSetup(requestCtx.Headers.Get(HeaderCSeq), htv)
-	if session.isWebSocket {
-		respLen := len([]byte(resp))
-		session.writeWsFrameHeader(respLen)
-	}
-	_, err = session.conn.Write([]byte(resp))
-	return err
+	return session.write([]byte(resp))
 }
 
 func (session *ServerCommandSession) handleRecord(requestCtx nazahttp.HttpReqMsgCtx) error {
@@ -482,34 +452,33 @@ func (session *ServerCommandSession) handlePlay(requestCtx nazahttp.HttpReqMsgCt
 		return err
 	}
 	resp := PackResponsePlay(requestCtx.Headers.Get(HeaderCSeq))
-	if session.isWebSocket {
-		respLen := len([]byte(resp))
-		session.writeWsFrameHeader(respLen)
-	}
-	_, err := session.conn.Write([]byte(resp))
-	return err
+	return session.write([]byte(resp))
 }
 
 func (session *ServerCommandSession) handleTeardown(requestCtx nazahttp.HttpReqMsgCtx) error {
 	Log.Infof("[%s] < R TEARDOWN", session.uniqueKey)
 	resp := PackResponseTeardown(requestCtx.Headers.Get(HeaderCSeq))
-	if session.isWebSocket {
-		respLen := len([]byte(resp))
-		session.writeWsFrameHeader(respLen)
-	}
-	_, err := session.conn.Write([]byte(resp))
-	return err
+	return session.write([]byte(resp))
 }
 
-func (session *ServerCommandSession) writeWsFrameHeader(respLen int) {
-	wsHeader := base.WsHeader{
-		Fin:           true,
-		Rsv1:          false,
-		Rsv2:          false,
-		Rsv3:          false,
-		Opcode:        base.Wso_Binary,
-		PayloadLength: uint64(respLen),
-		Masked:        false,
+// write 发送一个完整的信令回复或interleaved包
+//
+// websocket模式下，帧头和负载作为一个整体进入发送队列：
+// 队列满时整帧丢弃，并且不会和其他协程（信令协程、转发协程）的写入交错，避免破坏websocket的帧边界。
+func (session *ServerCommandSession) write(b []byte) error {
+	if session.isWebSocket {
+		wsHeader := base.WsHeader{
+			Fin:           true,
+			Rsv1:          false,
+			Rsv2:          false,
+			Rsv3:          false,
+			Opcode:        base.Wso_Binary,
+			PayloadLength: uint64(len(b)),
+			Masked:        false,
+		}
+		_, err := session.conn.Writev(net.Buffers{base.MakeWsFrameHeader(wsHeader), b})
+		return err
 	}
-	session.conn.Write(base.MakeWsFrameHeader(wsHeader))
+	_, err := session.conn.Write(b)
+	return err
 }
